@@ -113,10 +113,11 @@ impl Checker {
                 }
             }
             Ty::Optional { sub_ty } if matches!(sub_ty.absolute_ty(), Ty::Pointer { .. } | Ty::RawPtr { .. }) => {
-                // distinct-of-pointer: the statement leaves the representation open
-                let u = self.layout(sub_ty);
-                if !(l.size == self.ptr || (l.discriminant_offset == Some(u.size) && l.size >= u.size + 1)) {
-                    return fail("optional-wrapped-pointer", "neither pointer-sized nor tagged".into());
+                // a distinct (or variant) of a pointer has the pointer's semantics: Ty::is_non_zero,
+                // which the rest of codegen uses to treat `?T` as a nullable pointer, looks through
+                // the wrapper, so the layout has to be pointer-sized as well
+                if l.size != self.ptr || l.discriminant_offset.is_some() {
+                    return fail("optional-wrapped-pointer", format!("optional of a distinct pointer has size {} / tag {:?}, expected a bare pointer ({} bytes)", l.size, l.discriminant_offset, self.ptr));
                 }
             }
             Ty::Optional { .. } | Ty::ErrorUnion { .. } | Ty::Enum { .. } => {
